@@ -52,8 +52,8 @@ def gen_scenarios(rng, quick):
                 u = rng.random()
                 if u < 0.78:
                     dur = rng.choice([0, 0, 0, 20, 100, 500]) if not heavy else rng.choice([0, 0, 0, 10])
-                    # v/x int tasks, n/m void tasks, a: int task with bound arguments, p/q: tasks returning a
-                    # structure read through operator-> / const operator* (q throws)
+                    # v/x int tasks, n/m void tasks, a: void task with bound arguments, p/q: tasks returning a
+                    # structure read through operator-> / operator* without a prior test (q throws)
                     kind = rng.choices("vxnmapq", weights=[30, 14, 14, 8, 12, 14, 8])[0]
                     ops.append("A%d:%s" % (dur, kind))
                     ntasks += 1
